@@ -341,6 +341,50 @@ pub fn systems(tier: Tier) -> Vec<Built> {
         };
         out.push(Built { sys, depth: if n_sync == 3 { (8, 10) } else if reparent { (7, 9) } else { (9, 12) } });
     }
+    // traffic of other PTP domains bearing the parent's identity and the ids of the running
+    // exchanges (a grandmaster serving several profiles from one port): same domainNumber with
+    // another majorSdoId (gPTP's 0x100), with another minorSdoId, and another domainNumber
+    {
+        let name = "e2e-other-domains";
+        let node = NodeSpec::default();
+        let mut cfg = WorldCfg { node, log_in_key: true, ..Default::default() };
+        let a = Peer::gm(1, 1);
+        cfg.peers = vec![a.clone()];
+        let own = Pid { clock: cfg.node.identity, port: 1 };
+        let seq0 = 65535u16;
+        let mut alpha = Alpha::new();
+        let rx = (tag_ns(0) as u128) << 32 | 0x1234_5678;
+        alpha = alpha.add(Ev::RawAt(0, hex(&a.sync(seq0, true, Ts::default(), tag_corr(0))), rx.to_string()));
+        alpha = alpha.add(Ev::Raw(0, hex(&a.follow_up(seq0, Ts::from_ns(tag_ns(1) as u128), tag_corr(1))), false));
+        alpha = alpha.add(Ev::T(0, Timer::Delay));
+        alpha = alpha.add(Ev::TxTsAt(0, (((tag_ns(2) as u128) << 32) | 0x4000_0000).to_string()));
+        alpha = alpha.add(Ev::Raw(0, hex(&a.delay_resp(0, Ts::from_ns(tag_ns(3) as u128), tag_corr(3), &own)), false));
+        let mut t = 4usize;
+        for (dom, sdo) in [(0u8, 0x100u16), (0, 0x001), (1, 0)] {
+            let mut f = a.clone();
+            f.domain = dom;
+            f.sdo = sdo;
+            alpha = alpha.add(Ev::Raw(0, hex(&f.follow_up(seq0, Ts::from_ns(tag_ns(t) as u128), tag_corr(t))), false));
+            t += 1;
+            alpha = alpha.add(Ev::Raw(0, hex(&f.delay_resp(0, Ts::from_ns(tag_ns(t) as u128), tag_corr(t), &own)), false));
+            t += 1;
+            let rx = (tag_ns(t) as u128) << 32 | 0x0bad_0001;
+            // one-step in the first foreign domain, two-step (pairs with the parent's Follow_Up) in the others
+            alpha = alpha.add(Ev::RawAt(0, hex(&f.sync(seq0, sdo != 0x100, Ts::from_ns(tag_ns(t + 1) as u128), tag_corr(t))), rx.to_string()));
+            t += 2;
+        }
+        let sys = WorldSys {
+            property: "C09",
+            name: name.to_string(),
+            cfg,
+            seed: vec![Ev::Ann(0, 0), Ev::Ann(0, 0), Ev::Bmca],
+            alphabet: alpha.0,
+            obedient: true,
+            monitor: &MON0,
+            macros: vec![],
+        };
+        out.push(Built { sys, depth: (6, 8) });
+    }
     out
 }
 
